@@ -101,6 +101,9 @@ def run(tier):
             continue
         ninst += recs[-1]['n']
         for b in recs[:-1]:
+            if 'offsetMinutes' in b:
+                chk.violation('instants:offset-date-time-day-count', 'epoch seconds %d at offset %d min: OffsetDateTime::toEpochDays() = %s, the instant lies on day %s' % (b['t'], b['offsetMinutes'], b['toEpochDays'], b['want']), b)
+                continue
             chk.violation('instants:fields', 'epoch seconds %d: fields %s, expected %s' % (b['t'], b['got'], b['want']), b)
     chk.add(states=r.distinct + r2.distinct, transitions=r.generated + r2.generated, traces_validated_against_impl=ndays,
             days_compared_with_tlc_table=ndays, instants_checked=ninst, byte_triples_checked=16777216,
